@@ -192,8 +192,9 @@ func (d *drv) apply(ev string, step int, before obs) (applicable bool, err error
 		d.s.SendKeepalive()
 	case m.EvNotification:
 		// any NOTIFICATION must end the session the same way: vary code/subcode with the position in the sequence
-		// and the case (all pairs are ones bio-rd's decoder accepts)
-		codes := [][2]uint8{{6, 0}, {1, 1}, {1, 2}, {2, 2}, {3, 1}, {4, 0}, {5, 0}, {6, 2}, {2, 6}}
+		// and the case (the last four pairs are ones bio-rd's decoder does not know: Cease/9 Hard Reset, Cease/10 BFD
+		// Down, ROUTE-REFRESH Message Error, Hold Timer Expired with a subcode)
+		codes := [][2]uint8{{6, 0}, {1, 1}, {1, 2}, {2, 2}, {3, 1}, {4, 0}, {5, 0}, {6, 2}, {2, 6}, {6, 9}, {6, 10}, {7, 1}, {4, 1}}
 		h := step
 		for _, e := range d.c.Events {
 			h = h*31 + len(e) + len(d.c.Prelude)
